@@ -25,6 +25,9 @@ type window struct {
 	I, J   int // event indices (inclusive)
 	Bytes  *big.Int
 	Detail string
+	// clause 2 only: the shortfall is below one byte per arrival of the window, i.e. small enough to be
+	// the sum of the sub-byte remainders a limiter discards when it truncates the tokens earned per packet
+	WithinTruncation bool
 }
 
 var (
@@ -155,7 +158,11 @@ func lowerBound(ev []event, rate uint64, burst uint32) *window {
 			}
 			dt := e.T - ev[start].T
 			due := new(big.Rat).SetFrac(new(big.Int).Mul(r, new(big.Int).SetUint64(dt)), big1e9)
-			return &window{I: start, J: k, Bytes: sum,
+			// would the demand be met had every one of the k-start gaps earned one byte more?
+			// 1e9*(A + (k-start)) - r*dt >= -1e9*(burst+65535)   <=>   H + 1e9*(k-start) >= floor
+			withTrunc := new(big.Int).Mul(big.NewInt(int64(k-start)), big1e9)
+			withTrunc.Add(withTrunc, H)
+			return &window{I: start, J: k, Bytes: sum, WithinTruncation: withTrunc.Cmp(floor) >= 0,
 				Detail: fmt.Sprintf("admitted %s bytes in [t_%d, t_%d] (%d ns, %d arrivals) but r=%d B/s * window = %s bytes, minus burst %d minus 65535 = %s",
 					sum, start, k, dt, k-start+1, rate/8, due.FloatString(1), burst,
 					new(big.Rat).Sub(due, new(big.Rat).SetInt64(int64(burst)+maxPkt)).FloatString(1))}
@@ -262,6 +269,14 @@ func countAdm(ev []event) (adm, drop int) {
 // overSig / zeroSig are the signatures for clause 1 and the rate-0 clause on this layer.
 // It returns abandon=true when a listed known finding was hit, and the classes the case exhibited.
 func verdictCheck(t fataler, ev []event, rate uint64, burst uint32, overSig, zeroSig string, ctx func() string) (abandon bool, cls []string) {
+	return verdictCheck2(t, ev, rate, burst, burst, overSig, zeroSig, ctx)
+}
+
+// verdictCheck2: burst is the contract (clause 1, and the slack of clause 2); bucket <= burst is the
+// size of the bucket actually enforcing it, which the saturation precondition of clause 2 must use (a
+// smaller bucket than contracted keeps clause 1 and is only "always busy" for arrivals that do not let
+// it overflow).
+func verdictCheck2(t fataler, ev []event, rate uint64, burst, bucket uint32, overSig, zeroSig string, ctx func() string) (abandon bool, cls []string) {
 	if rate == 0 {
 		for k, e := range ev {
 			if !e.Adm {
@@ -280,7 +295,7 @@ func verdictCheck(t fataler, ev []event, rate uint64, burst uint32, overSig, zer
 		return failSig(t, overSig, "%s; %s", w.Detail, ctx()), cls
 	}
 	r := rate / 8
-	for _, run := range satRuns(ev, rate, burst) {
+	for _, run := range satRuns(ev, rate, bucket) {
 		sub := ev[run[0]:run[1]]
 		cls = append(cls, "lb:run")
 		// is the demand of clause 2 positive somewhere in this run?  r*W > burst + 65535
@@ -294,9 +309,14 @@ func verdictCheck(t fataler, ev []event, rate uint64, burst uint32, overSig, zer
 			}
 		}
 		if lw != nil {
-			sig := sigStarvedFrac
-			if integralRefill(sub, rate) {
+			// signature: the known truncation defect can only explain a shortfall of less than one byte per
+			// arrival on arrival patterns whose gaps earn fractions of a byte; anything else is a different defect
+			sig := sigStarvedBeyond
+			switch {
+			case integralRefill(sub, rate):
 				sig = sigStarvedInt
+			case lw.WithinTruncation:
+				sig = sigStarvedFrac
 			}
 			return failSig(t, sig, "subscriber with a packet always waiting (arrivals %d..%d) starved: %s; %s", run[0], run[1]-1, lw.Detail, ctx()), cls
 		}
